@@ -280,6 +280,10 @@ def wf_script(script: dict) -> int:
             entry["values"].append(["time", t.wf.utc_now().isoformat()])
         elif op == "uuid":
             entry["values"].append(["uuid", t.wf.uuid()])
+        elif op[0] == "nested":
+            # a plain call of the same task from inside the workflow; when the task is declared with
+            # force_new_workflow the callee is a workflow of its own
+            entry["values"].append(["nested", t(op[1]).result])
         else:
             sub = t.wf.execute_task(_self_task("add"), op[1], op[2])
             entry["values"].append(["task", str(sub.invocation_id)])
